@@ -125,7 +125,10 @@ def from_xir(xir_prog: xir.Program) -> Program:
             else:
                 gate() | regrefs  # pylint:disable=expression-not-assigned,pointless-statement
 
-    prog._target = xir_prog.options.get("_target_", None)  # pylint: disable=protected-access
+    # the writer stores the target under "target" ("_target_" is kept for older scripts)
+    prog._target = xir_prog.options.get(  # pylint: disable=protected-access
+        "target", xir_prog.options.get("_target_", None)
+    )
 
     if "shots" in xir_prog.options:
         prog.run_options["shots"] = xir_prog.options["shots"]
